@@ -8,6 +8,13 @@ def groups_t(gs):
     return [[[f.name, [[l.number, l.value] for l in f.lines]] for f in g] for g in gs]
 
 
+def groups_offset(t, k):
+    """the groups of the numbered lines of `t` when they are numbered from k+1 (lines taken from further down a larger
+    file), with k taken off again"""
+    lines = [deb822.NumberedLine(number=l.number + k, value=l.value) for l in deb822.NumberedLine.lines_from_text(t)]
+    return [[[n, [[num - k, v] for num, v in ls]] for n, ls in g] for g in groups_t(deb822.get_paragraphs_as_field_groups_from_lines(lines))]
+
+
 _AB = Abandon()
 
 
